@@ -118,6 +118,19 @@ static void bad(const char* what, long a, long b, long c)
         std::printf("MISMATCH pair=%s what=%s a=%ld b=%ld c=%ld\n", g_pair, what, a, b, c);
 }
 
+// laws that cannot hold by construction of difference_type (see flat_upper): one line per (pair, law), not counted
+// against the print cap of the other mismatches
+static void beyond(const char* what)
+{
+    static std::vector<std::string> seen;
+    const std::string k = std::string(g_pair) + "|" + what;
+    for(const auto& s : seen)
+        if(s == k)
+            return;
+    seen.push_back(k);
+    std::printf("MISMATCH pair=%s what=%s a=0 b=0 c=0\n", g_pair, what);
+}
+
 enum { OP_INC, OP_DEC, OP_PLUS_EQ, OP_MINUS_EQ, OP_IT_PLUS, OP_N_PLUS_IT, OP_IT_MINUS, OP_POSTINC, OP_POSTDEC, OPS };
 
 template<typename It>
@@ -487,6 +500,90 @@ static void flat_large(unsigned long long size, unsigned long long bl)
     }
 }
 
+// Counts in the upper half of the unsigned count type (still "any header contents").  Everything that does not have to
+// pass a position through difference_type must work: size, size_bytes, operator[], front, back, stepping with ++/--
+// from either end, begin()/end() inequality.  Iterator arithmetic that *needs* a distance of more than the signed
+// maximum (begin()+size(), end()-begin()) is reported under its own site, see known_findings.txt.
+template<typename Msg, int NB, int BB>
+static void flat_upper(unsigned long long size, unsigned long long bl, bool walk)
+{
+    const std::size_t hdr = 8, dim = NB + BB;
+    const std::size_t total = hdr + dim + static_cast<std::size_t>(size * bl);
+    std::vector<unsigned char> buf(total + 1);
+    put_le(&buf[0], 2, 0);
+    put_le(&buf[hdr], BB, bl);
+    put_le(&buf[hdr + BB], NB, size);
+    unsigned char* data = &buf[hdr + dim];
+    Msg m{reinterpret_cast<char*>(buf.data()), total};
+    auto g = m.g();
+    using G = decltype(g);
+    using It = typename G::iterator;
+    using D = typename G::difference_type;
+    using S = typename G::size_type;
+    bool as = VRT_TRAPPED(({
+        g_large++;
+        if(static_cast<unsigned long long>(g.size()) != size || g.empty())
+            bad("upper-size", 0, 0, 0);
+        if(sbepp::size_bytes(g) != dim + size * bl)
+            bad("upper-size_bytes", 0, 0, 0);
+        const unsigned long long smax = (NB == 8) ? 0x7FFFFFFFFFFFFFFFULL : ((1ULL << (8 * NB - 1)) - 1);
+        const unsigned long long samples[7] = {0, 1, smax - 1, smax, smax + 1, size - 2, size - 1};
+        for(int a = 0; a < 7; a++)
+        {
+            const unsigned long long i = samples[a];
+            if(i >= size)
+                continue;
+            g_expr++;
+            if(reinterpret_cast<unsigned char*>(sbepp::addressof(g[static_cast<S>(i)])) != data + i * bl)
+                bad("upper-operator[]", static_cast<long>(a), 0, 0);
+        }
+        if(reinterpret_cast<unsigned char*>(sbepp::addressof(g.front())) != data
+           || reinterpret_cast<unsigned char*>(sbepp::addressof(g.back())) != data + (size - 1) * bl)
+            bad("upper-front-back", 0, 0, 0);
+        if(g.begin() == g.end() || !(g.begin() != g.end()))
+            bad("upper-begin!=end", 0, 0, 0);
+        {
+            It it = g.end();
+            --it;
+            if(reinterpret_cast<unsigned char*>(sbepp::addressof(*it)) != data + (size - 1) * bl)
+                bad("upper---end", 0, 0, 0);
+            ++it;
+            if(!(it == g.end()))
+                bad("upper-++(--end)", 0, 0, 0);
+        }
+        if(walk)
+        {
+            unsigned long long k = 0;
+            for(const auto e : g)
+            {
+                if(reinterpret_cast<unsigned char*>(sbepp::addressof(e)) != data + k * bl)
+                {
+                    bad("upper-range-for", static_cast<long>(k), 0, 0);
+                    break;
+                }
+                k++;
+                if(k > size)
+                    break;
+            }
+            if(k != size)
+                bad("upper-range-for-count", static_cast<long>(k), static_cast<long>(size), 0);
+        }
+        // distances beyond the signed maximum cannot be passed through difference_type
+        if(!(g.begin() + static_cast<D>(size) == g.end()))
+            beyond("count-beyond-difference_type:begin+size==end");
+        if(static_cast<unsigned long long>(static_cast<S>(g.end() - g.begin())) != size || (g.end() - g.begin()) < 0)
+            beyond("count-beyond-difference_type:end-begin");
+        if(!(g.begin() < g.end()))
+            beyond("count-beyond-difference_type:begin<end");
+    }));
+    if(as)
+    {
+        g_asserts++;
+        g_mismatch++;
+        std::printf("MISMATCH pair=%s what=spurious-assert-upper size=%llu bl=%llu expr=%s\n", g_pair, size, bl, vrt::astate().expr);
+    }
+}
+
 template<typename MF, typename MN, int NB, int BB>
 static void run_pair(const char* name, int idx)
 {
@@ -511,8 +608,12 @@ static void run_pair(const char* name, int idx)
             flat_large<MF, NB, BB>(dmax, 1);
             flat_large<MF, NB, BB>(dmax, 2);
         }
-        // few entries, large block lengths (entries far apart; only addresses are formed, nothing is read)
         (void)blmax;
+        const unsigned long long umax = (NB == 8) ? 0xFFFFFFFFFFFFFFFFULL : ((1ULL << (8 * NB)) - 1);
+        flat_upper<MF, NB, BB>(umax, 0, NB <= 2);
+        flat_upper<MF, NB, BB>(dmax + 1, 0, NB <= 2);
+        if(NB <= 2)
+            flat_upper<MF, NB, BB>(umax, 1, true);
     }
     std::printf("DONE pair=%s expr=%llu\n", name, g_expr);
 }
